@@ -396,6 +396,52 @@ def single_doc(al, enc, cons, P, eol, arr, dec, cont="top", before_container=Fal
     return finish_doc(text, eol, planted, dvals, desc)
 
 
+# what separates a tagged comment from a later comment / construct: a message-free construct of every kind
+# (written completely, or - control lines - left open so that what follows sits in its body), a text line, a blank line
+STALE_X = [k for k in KINDS] + [k + "-body" for k in ("if", "elif", "for", "while")] + ["text", "blank"]
+STALE_SECOND = ["untagged", "tagged", "none"]
+
+
+def stale_doc(al, enc, xname, B, gap, second, eol):
+    """tagged comment c1 directly before X (no message there); `gap` text lines; then an untagged / a tagged /
+    no comment directly before the message-bearing construct B.  c1 is not immediately before B: B's messages
+    carry the second comment iff it is tagged, and never c1."""
+    w = al.plain(enc)
+    c1, c2 = "%s %s1" % (al.tag, w), "%s %s2" % (al.tag, w)
+    closer = ""
+    if xname in ("text", "blank"):
+        xclass = xname
+        text = al.filler + "\n## " + c1 + "\n" + (al.filler + " " + w if xname == "text" else "") + "\n"
+    else:
+        kind = xname.split("-")[0]
+        X = construct(al, enc, CANON[kind], "dummy", n="1")
+        text = al.filler + "\n" + X["head"] + "## " + c1 + "\n"
+        if xname.endswith("-body"):
+            xclass = "open-control-line"
+            lines = X["main"].split("\n")
+            text += lines[0] + "\n"
+            closer = "\n" + lines[-1]
+        else:
+            xclass = "construct"
+            text += X["main"] + "\n"
+    text += (al.filler + " " + w + "\n") * gap
+    text += B["head"]
+    if second == "untagged":
+        text += "## " + w + "2 " + al.tag + "\n"
+    elif second == "tagged":
+        text += "## " + c2 + "\n"
+    text += B["main"] + closer + "\n"
+    arr = "stale:%s+%s" % (xclass, second)
+    planted = []
+    for k in B["calls"]:
+        p_ = dict(k, req=[c2] if second == "tagged" else [], opt=[], arr=arr)
+        if xname == "blank" and second == "tagged":
+            p_["opt"] = [c1]  # two comment paragraphs separated by a blank line only: not fixed by the statement
+        planted.append(p_)
+    desc = {"stale": xname, "B": list(B["layout"]) + [B["form"]], "gap": gap, "second": second, "eol": eol}
+    return finish_doc(text, eol, planted, {}, desc)
+
+
 SEPS = ["nl", "same", "blank"]
 
 
@@ -654,12 +700,14 @@ BOUNDS = {
         "G2 transport/configuration": "every layout x form x LF/CRLF x {none, imm} x {none, text} under 10 further Babel configurations and Lingua reading 4 encodings from a real file",
         "G3 containers": "9 containers x every layout x forms {u, 2l} x LF/CRLF x 11 arrangements (+ comment before the container), text decoys",
         "G4 pairs": "all ordered pairs of the 14 kinds (canonical layout), message/dummy x separators {next line, same line, blank line} x comment {none, before 1st, before 2nd}",
+        "G6 stale comment": "tagged comment directly before X in {message-free construct of each of the 14 kinds, the 4 control-line kinds left open, a text line, a blank line} x 0/1/3 text lines x {untagged comment, tagged comment, no comment} directly before a message construct of each of the 14 kinds x LF/CRLF",
     },
     "thorough": {
         "G1 single construct, top level": "60 layouts x 5 forms x P{0,1,3} x LF/CRLF x 11 arrangements x 6 decoys x 4 encodings (Babel), Lingua on the ascii and utf-8 spellings",
         "G2 transport/configuration": "as quick, all 11 arrangements and 6 decoys",
         "G3 containers": "9 containers x every layout x all 5 forms x P{0,1} x LF/CRLF x 11 arrangements (+ comment before the container) x 6 decoys, in utf-8 and cp1251",
         "G4 pairs": "all ordered pairs of the 60 layouts, forms {u, 2} / dummy, 3 separators, 3 comment positions, LF/CRLF",
+        "G6 stale comment": "as quick with the message construct in all 60 layouts, forms {u, 2}",
         "G5 triples": "all ordered triples of the 14 kinds (canonical layout), separators {next line, same line}, comment {none, before 1st, 2nd, 3rd}, each construct message/dummy",
     },
 }
@@ -793,10 +841,35 @@ def gen_unit(unit, tier, al):
                         if cpos and sep == "same":
                             continue
                         yield from ext_cases(multi_doc(al, enc, [A, B, C], sep, cpos, "lf"), al, enc)
+    elif g == "G6":
+        _, xi = unit
+        xname = STALE_X[xi]
+        enc = "utf-8"
+        if tier == "quick":
+            lays, forms = [CANON[k] for k in KINDS], ("u",)
+        else:
+            lays, forms = LAYOUTS, ("u", "2")
+        for lb in lays:
+            if not stale_allowed(xname, lb):
+                continue
+            for fb in forms:
+                B = construct(al, enc, lb, fb, base="b", n="2")
+                for gap in (0, 1, 3):
+                    for second in STALE_SECOND:
+                        for eol in ("lf", "crlf"):
+                            yield from ext_cases(stale_doc(al, enc, xname, B, gap, second, eol), al, enc)
     elif g == "V":
         return
     else:
         raise ValueError(unit)
+
+
+def stale_allowed(xname, lb):
+    if xname.split("-")[0] == "page" and lb[0] == "page":
+        return False
+    if xname.endswith("-body") and lb[0] in TOP_ONLY + ("block",):
+        return False
+    return True
 
 
 def forms_of(layout):
@@ -823,6 +896,8 @@ def units(tier):
         for ai in range(len(KINDS)):
             for bi in range(len(KINDS)):
                 us.append(("G5", ai, bi))
+    for xi in range(len(STALE_X)):
+        us.append(("G6", xi))
     return us
 
 
@@ -842,7 +917,7 @@ def is_nontrivial(case):
     d = case["desc"]
     if not case["expect"]:
         return False
-    if "multi" in d:
+    if "multi" in d or "stale" in d:
         return True
     return (
         d["arr"] != "none"
@@ -935,6 +1010,19 @@ def validity(al, st):
                     st.extra.setdefault("harness_errors", []).append(
                         "planter produced a template Mako rejects: %s: %s\n%s" % (type(e).__name__, str(e)[:200], doc["src"])
                     )
+    for xname in STALE_X:
+        for k in KINDS:
+            if not stale_allowed(xname, CANON[k]):
+                continue
+            B = construct(al, "utf-8", CANON[k], "u", base="b", n="2")
+            doc = stale_doc(al, "utf-8", xname, B, 1, "untagged", "lf")
+            try:
+                Template(doc["src"], imports=["_ = gettext = lambda s: s", "ngettext = lambda s, p, n: s", "n = x = 1"])
+                n += 1
+            except BaseException as e:  # noqa
+                st.extra.setdefault("harness_errors", []).append(
+                    "planter produced a template Mako rejects: %s: %s\n%s" % (type(e).__name__, str(e)[:200], doc["src"])
+                )
     st.extra["planter_templates_compiled"] = n
 
 
